@@ -292,7 +292,7 @@ _add(Entry('lexonly', G_SCAN, {'parser': None, 'lexer': 'basic'}, {'': {}}, lalr
 # Earley / CYK entries (not LALR: no interactive sessions, no scan, no save)
 _add(Entry('eam', G_AMB, {'parser': 'earley'},
            _prod({'basic': {'lexer': 'basic'}, 'dyn': {'lexer': 'dynamic'}, 'dync': {'lexer': 'dynamic_complete'}},
-                 {'res': {'ambiguity': 'resolve'}, 'exp': {'ambiguity': 'explicit'}}),
+                 {'res': {'ambiguity': 'resolve'}, 'exp': {'ambiguity': 'explicit'}, 'forest': {'ambiguity': 'forest'}}),
            lalr=False, texts=["a+b*c", "a+b+c*a", "a", "a+", "a*b*c+a", "+a", "a b"]))
 _add(Entry('eamp', G_AMB_P, {'parser': 'earley'},
            _prod({'basic': {'lexer': 'basic'}, 'dyn': {'lexer': 'dynamic'}}, {'res': {}, 'inv': {'priority': 'invert'}}),
